@@ -49,4 +49,5 @@ try:
         out[p] = {"exit": r.returncode, "violations": len(viol), "kinds": kinds, "no_failing_input": any("no-failing-input-found" in v for v in viol), "tail": r.stdout.strip().splitlines()[-1] if r.stdout.strip() else ""}
 finally:
     sh("git -C %s checkout -- ." % repo)
+    sh("python3 /verif/tools/rs2lean.py --all /repo /verif/lean/DryocVerif/Gen")
 print(json.dumps(out, indent=1))
